@@ -371,6 +371,11 @@ class Spec:
         def pb(kind, msg, **sig):
             bad(kind, "after %s: %s" % (lab, msg), probe=kind, **sig)
 
+        # the connection-level receive window is not a setting: no INITIAL_WINDOW_SIZE change, acknowledged or not, moves it
+        c = fresh()
+        if c.inbound_flow_control_window != 65535:
+            pb("local-iws-probe", "connection receive window is %d although nothing was received and no increment was made "
+               "(INITIAL_WINDOW_SIZE in force %d)" % (c.inbound_flow_control_window, cur[IWS]), expected="65535")
         # P-MFS: local MAX_FRAME_SIZE
         mfs = cur[MFS]
         c = fresh()
